@@ -39,7 +39,7 @@ Proof.
 Qed.
 
 Lemma max_end_nonneg l : 0 <= max_end l.
-Proof. induction l; cbn; lia. Qed.
+Proof. induction l as [|n r IH]; cbn [max_end fold_right]; [lia|]. fold (max_end r). lia. Qed.
 
 Lemma notes_pass_spec k lo hi ns : forall acc d e, 0 <= e ->
   notes_pass k lo hi ns acc d e =
@@ -49,8 +49,9 @@ Lemma notes_pass_spec k lo hi ns : forall acc d e, 0 <= e ->
 Proof.
   induction ns as [|n r IH]; intros acc d e He; cbn [notes_pass filter map length].
   - rewrite app_nil_r. cbn [max_end fold_right]. f_equal; [f_equal|]; lia.
-  - unfold note_keep at 1 2 3. rewrite (orb_comm (n_drum n)).
-    destruct (((lo <=? n_pitch n + k) && (n_pitch n + k <=? hi)) || n_drum n) eqn:E.
+  - assert (((lo <=? n_pitch n + k) && (n_pitch n + k <=? hi)) || n_drum n = note_keep k lo hi n) as Hk
+      by (unfold note_keep; apply orb_comm).
+    rewrite Hk. destruct (note_keep k lo hi n) eqn:E.
     + rewrite IH by lia. cbn [rev map length max_end fold_right]. fold (max_end (filter (note_keep k lo hi) r)).
       rewrite <- app_assoc. cbn [app]. unfold note_shift at 2.
       destruct (n_drum n); cbn [negb]; (f_equal; [f_equal|]); try lia; reflexivity.
@@ -69,7 +70,7 @@ Proof.
   rewrite Z.max_r by exact Hm.
   destruct (if tc then map_opt (text_transposed k) (s_texts s) else Some (texts_without_chords (s_texts s)));
     [|reflexivity].
-  do 3 f_equal. lia.
+  reflexivity.
 Qed.
 
 (** ** What the specification says, clause by clause *)
@@ -84,7 +85,7 @@ Lemma note_shift_pitched k n : n_drum n = false ->
   n_start (note_shift k n) = n_start n /\ n_end (note_shift k n) = n_end n /\
   n_instr (note_shift k n) = n_instr n /\ n_prog (note_shift k n) = n_prog n /\
   n_drum (note_shift k n) = false /\ n_qstart (note_shift k n) = n_qstart n /\ n_qend (note_shift k n) = n_qend n.
-Proof. unfold note_shift. intros ->. cbn. repeat split. Qed.
+Proof. unfold note_shift. intros H. rewrite H. cbn. repeat split. exact H. Qed.
 
 Lemma note_shift_times k n :
   n_start (note_shift k n) = n_start n /\ n_end (note_shift k n) = n_end n /\ n_vel (note_shift k n) = n_vel n /\
